@@ -96,6 +96,18 @@ HISTORY = {
     'C05r3-B': ('caught', 'R-step-down existed'),
     'C06r3-A': ('missed', 'R-log-owners extended: the head drop goes up to the id reported with SUCCESS'),
     'C06r3-B': ('caught', 'R-version-in-payload existed'),
+    'C08r3-A': ('caught', 'R-bounded-write existed'),
+    'C08r3-B': ('missed', 'R-offset-coherent extended: the publish helper writes the header unless it compares with a cache primed from the file'),
+    'C09r3-A': ('caught', 'R-payload-complete existed'),
+    'C09r3-B': ('missed', 'R-dump-atomic: temporary names are compared after resolving locals and attributes bound once in __init__'),
+    'C10r3-A': ('caught', 'R-owners-membership (added the hour before) reported the function; R-rollback-paired now also checks that the restore installs the given set'),
+    'C10r3-B': ('missed', 'R-payload-complete extended: the member component contains the writing node; listed under C10'),
+    'C11r3-A': ('missed', 'new rule R-read-ungated'),
+    'C11r3-B': ('caught', 'R-cmd-shapes existed'),
+    'C13r3-A': ('missed', 'R-consume-once extended: the end of the buffered frames is decided by `is None`, not by truthiness'),
+    'C13r3-B': ('missed', 'R-decode-contained extended: every raising step on data derived from the payload is a decode step (tuple unpacking may raise)'),
+    'C17r3-A': ('missed', 'new rule R-enumeration-siblings'),
+    'C17r3-B': ('caught', 'R-payload-complete (snapshot position) existed'),
 }
 
 
